@@ -129,10 +129,15 @@ fn eval_lib(_ctx: &Ctx, case: &LibCase) -> Verdict {
     }
     // errors
     {
-        let mut dup = remove.clone();
-        dup.push(remove[0]);
-        if let Ok(s) = lib_marginalize(spec, &dup)? {
-            fail!("duplicate axis list {dup:?} accepted on shape {:?}, returned shape {:?}", spec.shape, s.shape);
+        // every listed axis repeated at every position of the list (adjacent and separated copies)
+        for &a in remove {
+            for at in 0..=remove.len() {
+                let mut dup = remove.clone();
+                dup.insert(at, a);
+                if let Ok(s) = lib_marginalize(spec, &dup)? {
+                    fail!("duplicate axis list {dup:?} accepted on shape {:?}, returned shape {:?}", spec.shape, s.shape);
+                }
+            }
         }
         for bad in [d, d + 5, usize::MAX] {
             let mut axes = remove.clone();
@@ -438,6 +443,19 @@ pub fn check(ctx: &Ctx) -> Check {
                 // five axes of lengths 1..2: four removed axes named in every order
                 v.extend(all_shapes(5, 1, 2).into_iter().filter(|s| s.len() == 5).map(|shape| ShapeCase { shape }));
                 v
+            }),
+            eval: Box::new(eval_shape),
+        }),
+        Box::new(EnumPart {
+            name: "lib-large-shapes",
+            rule: "shapes whose rows (product of the axes after the removed one) pass 4096 / 8192 elements or sit beside those sizes, and long single axes: every non-empty proper subset of axes in every order, same oracles as lib-exhaustive",
+            exhaustive: false,
+            cases: Box::new(|ctx: &Ctx| {
+                let mut v: Vec<Vec<usize>> = vec![vec![3, 65, 65], vec![2, 17, 17, 17], vec![2, 4099], vec![2, 4096], vec![3, 4097], vec![5, 3, 33, 33], vec![4100, 2], vec![2, 64, 64], vec![2, 8, 513], vec![3, 91, 91]];
+                if ctx.tier == crate::engine::Tier::Thorough {
+                    v.extend([vec![2, 129, 127], vec![2, 3, 4, 5, 70], vec![2, 65_537], vec![2, 256, 256], vec![7, 2, 8193]]);
+                }
+                v.into_iter().map(|shape| ShapeCase { shape }).collect()
             }),
             eval: Box::new(eval_shape),
         }),
